@@ -640,7 +640,12 @@ func getKeys(splitKeysDir string, useSequencedKeys bool) ([]tbls.PrivateKey, err
 			return nil, err
 		}
 
-		return files.SequencedKeys()
+		secrets, err := files.SequencedKeys()
+		if err != nil {
+			return nil, err
+		}
+
+		return secrets, checkUniqueKeys(secrets)
 	}
 
 	files, err := keystore.LoadFilesRecursively(splitKeysDir)
@@ -648,7 +653,24 @@ func getKeys(splitKeysDir string, useSequencedKeys bool) ([]tbls.PrivateKey, err
 		return nil, err
 	}
 
-	return files.Keys(), nil
+	secrets := files.Keys()
+
+	return secrets, checkUniqueKeys(secrets)
+}
+
+// checkUniqueKeys returns an error if the same validator key was loaded more than once:
+// a cluster lock must not list a distributed validator twice.
+func checkUniqueKeys(secrets []tbls.PrivateKey) error {
+	seen := make(map[tbls.PrivateKey]struct{}, len(secrets))
+	for i, secret := range secrets {
+		if _, ok := seen[secret]; ok {
+			return errors.New("duplicate validator key in split keys directory", z.Int("index", i))
+		}
+
+		seen[secret] = struct{}{}
+	}
+
+	return nil
 }
 
 // generateKeys generates numDVs amount of tbls.PrivateKeys.
